@@ -398,6 +398,7 @@ func runC01(c *Ctx) {
 	c.rule("R-RELINK", 1, "popMinRight re-attaches the removed node's large-side subtree where the removed node was linked")
 	c.rule("R-ROOT-FLOW", 5, "the root stored by Add/Replace/Remove derives from the result of the modification (through rewrite at most), on every path where something changed")
 	c.rule("R-NEW-DEDUP", 2, "New sorts (or checks sortedness) and de-duplicates on every path to the bulk loader")
+	c.rule("R-SIZE-PAIR", 2, "the cached element count changes by +1 under a successful insertion, −1 under a successful removal, or to 0 with the root dropped")
 	m := buildStreeModel(c)
 	if m == nil {
 		return
@@ -416,6 +417,7 @@ func runC01(c *Ctx) {
 	m.ruleDescents(c)
 	m.ruleRelink(c)
 	m.ruleRootFlow(c)
+	m.ruleSizePair(c)
 	m.ruleNewDedup(c)
 	m.ruleNavTable(c, [][3]string{
 		{"Tree", "Min", "small"}, {"Tree", "Max", "large"},
@@ -424,7 +426,7 @@ func runC01(c *Ctx) {
 		{"node", "inorder", "small,large"},
 	})
 	// bulk loader: lower half under small, upper half under large
-	if ex := P.Func("stree", "", "extract"); ex != nil {
+	if ex := m.bulkLoader(); ex != nil {
 		c.sawFn(fnName(ex))
 		for _, a := range m.childAccesses(ex) {
 			if !a.store {
@@ -436,7 +438,7 @@ func runC01(c *Ctx) {
 					val = st.Val
 				}
 			}
-			key := "stree.extract:." + a.fld.Name() + " half"
+			key := "stree bulk loader:." + a.fld.Name() + " half"
 			call, ok := val.(*ssa.Call)
 			if !ok || len(call.Call.Args) != 1 {
 				c.undecided("R-ORIENT", key, a.in.Pos(), "child is not built by a recursive call on a sub-slice")
@@ -958,6 +960,167 @@ func (m *streeModel) ruleRelink(c *Ctx) {
 	}
 }
 
+// ---- R-SIZE-PAIR: the element count changes by exactly one, together with a successful modification
+//
+// Tree.Len/IsEmpty read a cached count.  Outside construction every store to it must be: count+1 where an
+// insertion reported a new node, count−1 where a removal reported success, or 0 together with dropping the
+// root.  The count field is found by role: the integer field of Tree that Len returns.
+func (m *streeModel) ruleSizePair(c *Ctx) {
+	P := c.P
+	lenFn := P.Func("stree", "Tree", "Len")
+	if lenFn == nil {
+		c.undecided("ANCHOR", "stree.(*Tree).Len", 0, "not found")
+		return
+	}
+	var sizeF *types.Var
+	allInstrs(lenFn, func(in ssa.Instruction) {
+		if ret, ok := in.(*ssa.Return); ok && len(ret.Results) == 1 {
+			if _, f := loadedField(ret.Results[0]); f != nil {
+				sizeF = f
+			}
+		}
+	})
+	if sizeF == nil {
+		c.undecided("R-SIZE-PAIR", "stree.(*Tree).Len", lenFn.Pos(), "Len does not return a field of the tree")
+		return
+	}
+	// modifying calls: static callees returning (node, bool, …) that are handed the root; an insertion allocates nodes
+	allocatesNode := func(fn *ssa.Function) bool {
+		found := false
+		for _, f := range buildCallScope(fn).fns {
+			allInstrs(f, func(in ssa.Instruction) {
+				if al, ok := in.(*ssa.Alloc); ok && al.Heap && isNamedOrigin(al.Type(), m.nodeT) {
+					found = true
+				}
+			})
+		}
+		return found
+	}
+	// flagKind: "ins"/"rem" if v is the success flag of an insertion/removal (directly, or as the boolean
+	// parameter of a helper that every call site hands such a flag)
+	var flagKind func(v ssa.Value, depth int) string
+	flagKind = func(v ssa.Value, depth int) string {
+		if depth > 3 {
+			return ""
+		}
+		switch x := v.(type) {
+		case *ssa.Extract:
+			call, ok := x.Tuple.(*ssa.Call)
+			if !ok {
+				return ""
+			}
+			cal := staticCallee(&call.Call)
+			tup, isTup := call.Type().(*types.Tuple)
+			if cal == nil || cal.Blocks == nil || !isTup || tup.Len() < 2 || !isNamedOrigin(tup.At(0).Type(), m.nodeT) || x.Index == 0 {
+				return ""
+			}
+			if b, ok := tup.At(x.Index).Type().Underlying().(*types.Basic); !ok || b.Kind() != types.Bool {
+				return ""
+			}
+			if allocatesNode(cal) {
+				return "ins"
+			}
+			return "rem"
+		case *ssa.Parameter:
+			fn := x.Parent()
+			idx := -1
+			for i, p := range fn.Params {
+				if p == x {
+					idx = i
+				}
+			}
+			kind := ""
+			n := 0
+			for _, caller := range P.Methods("stree", "Tree") {
+				allInstrs(caller, func(in ssa.Instruction) {
+					call, ok := in.(*ssa.Call)
+					if !ok || origin(staticCallee(&call.Call)) != origin(fn) || idx < 0 || idx >= len(call.Call.Args) {
+						return
+					}
+					n++
+					k := flagKind(call.Call.Args[idx], depth+1)
+					if k == "" || (kind != "" && kind != k) {
+						kind = "?"
+					} else if kind == "" {
+						kind = k
+					}
+				})
+			}
+			if n == 0 || kind == "?" {
+				return ""
+			}
+			return kind
+		}
+		return ""
+	}
+	under := func(b *ssa.BasicBlock, want string) bool {
+		for _, f := range factsAt(b) {
+			if f.Truth && flagKind(f.Cond, 0) == want {
+				return true
+			}
+		}
+		return false
+	}
+	n := 0
+	for _, top := range P.Methods("stree", "Tree") {
+		for _, fn := range withClosures(top) {
+			name := fnName(fn)
+			allInstrs(fn, func(in ssa.Instruction) {
+				st, ok := in.(*ssa.Store)
+				if !ok {
+					return
+				}
+				fa, ok := st.Addr.(*ssa.FieldAddr)
+				if !ok {
+					return
+				}
+				if _, f := fieldVarOf(fa); !sameField(f, sizeF) {
+					return
+				}
+				if _, fresh := fa.X.(*ssa.Alloc); fresh {
+					return // construction (New, Clone)
+				}
+				n++
+				c.sawFn(name)
+				key := fmt.Sprintf("%s:%s=%s", name, sizeF.Name(), ksym(st.Val))
+				if isConstInt(st.Val, 0) {
+					// together with dropping the root
+					drops := false
+					for _, in2 := range st.Block().Instrs {
+						if s2, ok := in2.(*ssa.Store); ok {
+							if fa2, ok := s2.Addr.(*ssa.FieldAddr); ok {
+								if _, f2 := fieldVarOf(fa2); sameField(f2, m.rootF) && isNilConst(s2.Val) {
+									drops = true
+								}
+							}
+						}
+					}
+					c.judge(drops, "R-SIZE-PAIR", key, st.Pos(), "count reset together with dropping the root", "the element count is reset to 0 without the tree being emptied in the same block")
+					return
+				}
+				bo, ok := st.Val.(*ssa.BinOp)
+				isSelf := false
+				if ok {
+					if _, f := loadedField(bo.X); f != nil && sameField(f, sizeF) && isConstInt(bo.Y, 1) {
+						isSelf = true
+					}
+				}
+				switch {
+				case isSelf && bo.Op == token.ADD:
+					c.judge(under(st.Block(), "ins"), "R-SIZE-PAIR", key, st.Pos(), "count+1 where an insertion reported a new node", "the element count is incremented without being conditional on an insertion having added a node")
+				case isSelf && bo.Op == token.SUB:
+					c.judge(under(st.Block(), "rem"), "R-SIZE-PAIR", key, st.Pos(), "count−1 where a removal reported success", "the element count is decremented without being conditional on a removal having succeeded")
+				default:
+					c.bad("R-SIZE-PAIR", key, st.Pos(), "the element count is set to "+sym(st.Val)+", which is neither its old value ± 1 nor 0: Len and IsEmpty no longer follow the contents")
+				}
+			})
+		}
+	}
+	if n == 0 {
+		c.undecided("R-SIZE-PAIR", "stree.(*Tree)", lenFn.Pos(), "no update of the element count found")
+	}
+}
+
 // ---- R-ROOT-FLOW: the root stored by Add/Replace/Remove derives from the modified subtree
 func (m *streeModel) ruleRootFlow(c *Ctx) {
 	P := c.P
@@ -1113,11 +1276,39 @@ func (m *streeModel) ruleRootFlow(c *Ctx) {
 	}
 }
 
+// bulkLoader: the package function whose result New stores as the root of the tree it builds (role, not name).
+func (m *streeModel) bulkLoader() *ssa.Function {
+	fn := m.P.Func("stree", "", "New")
+	if fn == nil {
+		return nil
+	}
+	var out *ssa.Function
+	allInstrs(fn, func(in ssa.Instruction) {
+		st, ok := in.(*ssa.Store)
+		if !ok {
+			return
+		}
+		fa, ok := st.Addr.(*ssa.FieldAddr)
+		if !ok {
+			return
+		}
+		if _, f := fieldVarOf(fa); !sameField(f, m.rootF) {
+			return
+		}
+		if call, ok := st.Val.(*ssa.Call); ok {
+			if cal := staticCallee(&call.Call); cal != nil && cal.Blocks != nil && cal.Pkg == origin(fn).Pkg {
+				out = cal
+			}
+		}
+	})
+	return out
+}
+
 // ---- R-NEW-DEDUP: bulk construction sorts and de-duplicates on every path
 func (m *streeModel) ruleNewDedup(c *Ctx) {
 	P := c.P
 	fn := P.Func("stree", "", "New")
-	extract := P.Func("stree", "", "extract")
+	extract := m.bulkLoader()
 	if fn == nil || extract == nil {
 		c.undecided("ANCHOR", "stree.New/extract", 0, "not found")
 		return
